@@ -6,4 +6,5 @@ INVARIANT ConstraintsSame
 INVARIANT SymbolicEvaluates
 INVARIANT OriginalUnchanged
 INVARIANT PythonEqual
+INVARIANT SubsIndependent
 CHECK_DEADLOCK FALSE
